@@ -48,6 +48,7 @@ type Contract struct {
 	Text     []string // raw lines (hash for the ledger)
 	Cover    bool
 	NoFrame  bool
+	Borrowed []string // results whose memory belongs to the callee's side (must not be written by the caller)
 	BVNames  []string
 	Theories []string          // axiom theories assumed in this function's obligations
 	Returns  map[string]string // result name -> parameter name whose pointer is returned
@@ -222,7 +223,7 @@ func (u *Universe) loadDeps(dir string) error {
 
 var clauseWords = map[string]bool{"requires": true, "ensures": true, "modifies": true, "panics": true,
 	"loop": true, "repr": true, "inline": true, "props": true, "opaque": true, "unroll": true, "note": true, "induct": true, "cover": true,
-	"bv": true, "intvar": true, "theory": true, "returns": true, "decreases": true, "fieldmode": true, "variant": true, "let": true, "use": true, "noframe": true, "specialize": true}
+	"bv": true, "intvar": true, "theory": true, "returns": true, "decreases": true, "fieldmode": true, "variant": true, "let": true, "use": true, "noframe": true, "borrowed": true, "specialize": true}
 
 func (u *Universe) parseContractFile(path, pkgPath string, deps bool) error {
 	data, err := os.ReadFile(path)
@@ -567,6 +568,9 @@ func (u *Universe) parseContractFile(path, pkgPath string, deps bool) error {
 			lastClause = nil
 		case "noframe":
 			curC.NoFrame = true
+			lastClause = nil
+		case "borrowed":
+			curC.Borrowed = append(curC.Borrowed, strings.Fields(rest)...)
 			lastClause = nil
 		case "specialize":
 			f := strings.Fields(rest)
